@@ -35,7 +35,7 @@ INT = re.compile(r"(?<![\w\.])(\d+)(?![\w\.])")
 
 def functions_of(pid):
     ev = json.load(open(os.path.join(HERE, "evidence", f"{pid}.json")))
-    generic = {f"R{pid[1:]}.{k}" for k in (9, 12, 13, 20)}
+    generic = {f"R{pid[1:]}.{k}" for k in (9, 12, 13, 18, 19, 20)}
     out = {}
     for s, rules in ev["coverage"].get("obligation_sites", {}).items():
         if not (set(rules) - generic):
